@@ -581,3 +581,46 @@ contract(F + "AbstractDissimilarity.compute_disorder",
          ensures=[cl("len(result) == len(L())", "C03", name="one-disorder-per-unitary-alignment")],
          notes="the values are those of the kernel contract (_compute_alignment_disorders) on the rank-indexed encoding (_build_arrays_alignment)",
          serves={"C03"})
+
+# ---- lambda family (Levenshtein): the matrix is built from the SORTED SET of the labels, so it does not depend on the order (or repetition)
+#      in which labels were supplied; entry (i, j) is the category distance of the i-th and j-th category names over the largest distance (>= 1)
+from pyvc.heap import register_class as _register_class   # noqa: E402
+from pyvc.contract import global_ghost   # noqa: E402
+_register_class("LambdaCategoricalDissimilarity", "pygamma_agreement/dissimilarity.py",
+                ["PrecomputedCategoricalDissimilarity", "CategoricalDissimilarity", "AbstractDissimilarity"])
+global_ghost("catf", "Real Real -> Real", [])
+LAMD = lambda: ObjT("LambdaCategoricalDissimilarity", delta_empty=RealT(), d_mat=DMAT, categories=OptObjT(ObjT("SetStr")),   # noqa: E731
+                    _matrix=NdArray("f32", 2))
+contract(F + "LambdaCategoricalDissimilarity.cat_dissim_func", params={"str1": StrT(), "str2": StrT()}, returns=RealT(), static=True, trusted=True,
+         ensures=[cl("result == catf(str1, str2)", "C04", name="a-function-of-the-two-category-names")],
+         notes="ASSUMED abstract method: a deterministic function of the two names (Levenshtein's is numba code over strings, outside the encoding)",
+         serves={"C04"})
+contract(F + "LambdaCategoricalDissimilarity.__init__",
+         params={"self": LAMD(), "labels": ListOf(StrT()), "delta_empty": RealT()}, modifies=["self"],
+         ghost_vars={"MAXV": ("Real", None), "CS": ("AReal", None), "NC": ("Int", None)},
+         calls={"self.cat_dissim_func": F + "LambdaCategoricalDissimilarity.cat_dissim_func",
+                "super().__init__": F + "PrecomputedCategoricalDissimilarity.__init__"},
+         requires=["len(labels) <= 32767"],
+         raises={"ValueError": {}, "AssertionError": {}},
+         ensures=[cl("not isnone(self.categories) and forall([(l, Real)], members(some(self.categories))[l] == exists(k, 0, len(labels), labels[k] == l))",
+                     "C04", name="categories-are-the-set-of-the-labels-whatever-their-order"),
+                  cl("NC == size(some(self.categories)) and forall(i, 0, NC, CS[i] == seqof(some(self.categories))[i]) and MAXV >= 1", "C04", name="ghosts"),
+                  cl("shape(self._matrix) == (NC, NC) and forall(i, 0, NC, self._matrix[i][i] == 0 and forall(j, 0, i, "
+                     "self._matrix[i][j] * MAXV == catf(CS[i], CS[j]) and self._matrix[j][i] == self._matrix[i][j]))", "C04",
+                     name="entry-is-the-distance-of-the-two-category-names-over-the-largest-distance-symmetric-zero-diagonal"),
+                  cl("forall(i, 0, NC, forall(j, 0, i, catf(CS[i], CS[j]) <= MAXV))", "C04", name="normalised-by-the-largest-distance")],
+         loops={"L0": dict(match="for i in range(nb_categories)",
+                           inv=["shape(matrix) == (NC, NC)", "max_val >= 1",
+                                "forall(a, 0, i, forall(b, 0, a, matrix[a][b] == catf(CS[a], CS[b]) and matrix[b][a] == matrix[a][b] and matrix[a][b] <= max_val))",
+                                "forall(a, 0, NC, forall(b, 0, NC, implies(a >= i or b >= i, matrix[a][b] == 0)))",
+                                "forall(a, 0, NC, matrix[a][a] == 0)"]),
+                "L0.0": dict(match="for j in range(i)",
+                             inv=["shape(matrix) == (NC, NC)", "max_val >= 1",
+                                  "forall(a, 0, i, forall(b, 0, a, matrix[a][b] == catf(CS[a], CS[b]) and matrix[b][a] == matrix[a][b] and matrix[a][b] <= max_val))",
+                                  "forall(b, 0, j, matrix[i][b] == catf(CS[i], CS[b]) and matrix[b][i] == matrix[i][b] and matrix[i][b] <= max_val)",
+                                  "forall(a, 0, NC, forall(b, 0, NC, implies(a > i or b > i or (a == i and b >= j) or (b == i and a >= j), matrix[a][b] == 0)))",
+                                  "forall(a, 0, NC, matrix[a][a] == 0)"])},
+         hooks=[("after", "nb_categories = ...", "NC = nb_categories"),
+                ("after", "nb_categories = ...", "CS = seqof(categories)"),
+                ("after", "matrix /= max_val", "MAXV = max_val")],
+         serves={"C04"})
